@@ -10,6 +10,7 @@ import (
 	"google.golang.org/protobuf/encoding/protojson"
 	"google.golang.org/protobuf/proto"
 	"google.golang.org/protobuf/reflect/protoreflect"
+	"google.golang.org/protobuf/types/dynamicpb"
 	"google.golang.org/protobuf/verif/core"
 	"google.golang.org/protobuf/verif/gen"
 	"google.golang.org/protobuf/verif/model"
@@ -18,7 +19,7 @@ import (
 func init() {
 	core.Register(&core.Check{
 		ID:         "C21",
-		Rule:       "cases: (a) every Marshal output of the C20 workload (all linked types x 64 option sets): accepted by the RFC 8259 recogniser and by encoding/json.Valid, and the compact and Multiline/Indent outputs of one message parse (UseNumber) to the same JSON value; (b) inputs offered to protojson.Unmarshal with targets structpb.Value (any JSON value), a typed message, a typed message with DiscardUnknown (skip path) and Any: marshal outputs mutated at token level (bad numbers, escapes, literals, structure), token soups, and every byte string up to length 3 (quick) / 4 (thorough) over a 22-character JSON alphabet placed at top level, inside an array, as an object value and as an unknown-field value; every accepted input must be valid JSON per both judges; distinct = distinct documents; non-trivial = document is not a bare literal",
+		Rule:       "cases: (runes) every rune of the basic plane and a sample beyond it, followed by a hex digit, marshalled in every string context (wrapper, Struct key and value, string field, map key; compact and multiline): valid JSON that encoding/json reads back as the same string; (a) every Marshal output of the C20 workload (all linked types x 64 option sets): accepted by the RFC 8259 recogniser and by encoding/json.Valid, and the compact and Multiline/Indent outputs of one message parse (UseNumber) to the same JSON value; (b) inputs offered to protojson.Unmarshal with targets structpb.Value (any JSON value), a typed message, a typed message with DiscardUnknown (skip path) and Any: marshal outputs mutated at token level (bad numbers, escapes, literals, structure), token soups, and every byte string up to length 3 (quick) / 4 (thorough) over a 22-character JSON alphabet placed at top level, inside an array, as an object value and as an unknown-field value; every accepted input must be valid JSON per both judges; distinct = distinct documents; non-trivial = document is not a bare literal",
 		Assume:     []string{"model/jsonref.go (RFC 8259 grammar recogniser)", "encoding/json.Valid and Decoder.UseNumber of the Go standard library"},
 		Exhaustive: func(tier string) bool { return false },
 		Batches: func(tier string) []core.Batch {
@@ -37,7 +38,7 @@ func init() {
 		},
 		Gates: func(tier string) map[string]int64 {
 			return map[string]int64{"outputs": 5000, "layout_pairs": 1000, "inputs": 100000, "accepted": 5000, "rejected": 50000, "accepted_after_mutation": 100, "mut:number": 500, "mut:escape": 100, "mut:literal": 100, "mut:structure": 500,
-				"target:value": 10000, "target:typed": 10000, "target:discard": 10000, "target:any": 1000, "escape_grammar_cases": 10000, "enumerated_strings": 8000, "invalid_json_offered": 50000}
+				"target:value": 10000, "target:typed": 10000, "target:discard": 10000, "target:any": 1000, "escape_grammar_cases": 10000, "enumerated_strings": 8000, "invalid_json_offered": 50000, "rune_outputs": 90000}
 		},
 		Run: runC21,
 	})
@@ -53,7 +54,125 @@ func runC21(c *core.Ctx, b core.Batch) {
 		c21Enumerate(c, b)
 	case "soup":
 		c21Soup(c)
+		c21Runes(c)
 	}
+}
+
+// c21Runes marshals every rune of the basic plane (and a sample beyond it),
+// followed by a hex digit, in the string contexts of the mapping: the output
+// must be valid JSON that an independent parser reads back as the same string.
+func c21Runes(c *core.Ctx) {
+	wrap := gen.TypeByName("google.protobuf.StringValue")
+	strct := gen.TypeByName("google.protobuf.Struct")
+	t3 := gen.TypeByName("goproto.proto.test3.TestAllTypes")
+	if wrap == nil || strct == nil || t3 == nil {
+		return
+	}
+	check := func(ctx string, rn rune, s string, m proto.Message, multiline bool, pick func(v any) (string, bool)) {
+		c.Eval()
+		c.Count("rune_outputs")
+		out, err := protojson.MarshalOptions{Multiline: multiline}.Marshal(m)
+		if err != nil {
+			c.Violation("out:rune:marshal-error:"+ctx, map[string]any{"rune": fmt.Sprintf("U+%04X", rn), "err": errStr(err)})
+			return
+		}
+		d := map[string]any{"rune": fmt.Sprintf("U+%04X", rn), "json": clip(string(out), 300), "context": ctx}
+		if !model.JSONValidUTF8(out) || !json.Valid(out) {
+			c.Violation("out:rune:invalid-json:"+ctx+":"+c21RuneClass(rn), d)
+			return
+		}
+		var v any
+		if json.Unmarshal(out, &v) != nil {
+			c.Violation("out:rune:invalid-json:"+ctx+":"+c21RuneClass(rn), d)
+			return
+		}
+		if got, ok := pick(v); !ok || got != s {
+			d["parsed"] = fmt.Sprintf("%q", got)
+			c.Violation("out:rune:denotes-another-string:"+ctx+":"+c21RuneClass(rn), d)
+		}
+	}
+	for i := 0; i < 0x10000+c.Scale(2000, 60000); i++ {
+		rn := rune(i)
+		if i >= 0x10000 {
+			r := c.Rng(uint64(0x21e)<<32 | uint64(i))
+			rn = rune(0x10000 + r.Intn(0x100000))
+		}
+		if rn >= 0xd800 && rn <= 0xdfff {
+			continue
+		}
+		for _, tail := range []string{"b", "0"} {
+			s := "a" + string(rn) + tail
+			multiline := i%2 == 0
+			// wrapper
+			w := wrap.New()
+			w.Set(w.Descriptor().Fields().ByName("value"), protoreflect.ValueOfString(s))
+			check("wrapper", rn, s, w.Interface(), multiline, func(v any) (string, bool) { x, ok := v.(string); return x, ok })
+			if tail == "0" && i%4 != 0 {
+				continue
+			}
+			// Struct key and string value
+			st := strct.New()
+			vmt := st.Descriptor().Fields().ByName("fields").MapValue().Message()
+			val := dynamicpbOrGlobal(vmt)
+			val.Set(val.Descriptor().Fields().ByName("string_value"), protoreflect.ValueOfString(s))
+			st.Mutable(st.Descriptor().Fields().ByName("fields")).Map().Set(protoreflect.ValueOfString(s).MapKey(), protoreflect.ValueOfMessage(val))
+			check("struct-key-and-value", rn, s, st.Interface(), multiline, func(v any) (string, bool) {
+				mm, ok := v.(map[string]any)
+				if !ok || len(mm) != 1 {
+					return "", false
+				}
+				for k, x := range mm {
+					xs, ok := x.(string)
+					if !ok || xs != k {
+						return k + "|" + fmt.Sprint(x), false
+					}
+					return k, true
+				}
+				return "", false
+			})
+			// plain field and map key
+			tm := t3.New()
+			tm.Set(tm.Descriptor().Fields().ByName("singular_string"), protoreflect.ValueOfString(s))
+			tm.Mutable(tm.Descriptor().Fields().ByName("map_string_string")).Map().Set(protoreflect.ValueOfString(s).MapKey(), protoreflect.ValueOfString(s))
+			check("field-and-map-key", rn, s, tm.Interface(), multiline, func(v any) (string, bool) {
+				mm, ok := v.(map[string]any)
+				if !ok {
+					return "", false
+				}
+				f, _ := mm["singularString"].(string)
+				mp, _ := mm["mapStringString"].(map[string]any)
+				for k, x := range mp {
+					if xs, _ := x.(string); xs != k || k != f {
+						return k + "|" + fmt.Sprint(x), false
+					}
+				}
+				return f, len(mp) == 1
+			})
+		}
+	}
+}
+
+func c21RuneClass(rn rune) string {
+	switch {
+	case rn < 0x20:
+		return "control"
+	case rn < 0x80:
+		return "ascii"
+	case rn < 0x100:
+		return "latin1"
+	case rn == 0x2028 || rn == 0x2029:
+		return "line-separator"
+	case rn < 0x10000:
+		return "bmp"
+	}
+	return "astral"
+}
+
+func dynamicpbOrGlobal(md protoreflect.MessageDescriptor) protoreflect.Message {
+	if mt := gen.TypeByName(string(md.FullName())); mt != nil {
+		return mt.New()
+	}
+	return dynamicpb.NewMessage(md)
 }
 
 func jsonParse(b []byte) (any, error) {
